@@ -221,6 +221,19 @@ std::vector<EntityUID>& Gone() {
   return gone;
 }
 
+std::vector<EntityUID>& Made() {
+  static std::vector<EntityUID> made;      // uids returned by Emplace, in order of creation (list position depends on the kind)
+  return made;
+}
+
+EntityUID MadeAt(long index) {
+  if (Made().empty()) {
+    return 4243;
+  }
+  const auto n = static_cast<long>(Made().size());
+  return Made().at(static_cast<size_t>(((index % n) + n) % n));
+}
+
 EntityUID UidAt(const RSCore& core, long index) {
   const auto size = static_cast<long>(core.List().size());
   if (size == 0) {
@@ -239,6 +252,9 @@ EntityUID UidOf(const RSCore& core, const json& j) {
   }
   if (j.contains("idx")) {
     return UidAt(core, j["idx"].get<long>());
+  }
+  if (j.contains("made")) {
+    return MadeAt(j["made"].get<long>());     // negative: counted from the most recently created
   }
   if (j.contains("gone")) {
     if (Gone().empty()) {
@@ -263,14 +279,15 @@ std::string ResolveText(const RSCore& core, std::string text, std::optional<Enti
       continue;
     }
     const bool isDef = text.compare(pos, 5, "$def[") == 0;
+    const bool isMade = text.compare(pos, 6, "$made[") == 0;
     const auto open = text.find('[', pos);
     const auto close = text.find(']', pos);
-    if (open == std::string::npos || close == std::string::npos || open > close || (open != pos + 1 && !isDef)) {
+    if (open == std::string::npos || close == std::string::npos || open > close || (open != pos + 1 && !isDef && !isMade)) {
       text.replace(pos, 1, "#");
       continue;
     }
     const auto index = std::stol(text.substr(open + 1, close - open - 1));
-    const auto uid = UidAt(core, index);
+    const auto uid = isMade ? MadeAt(index) : UidAt(core, index);
     std::string repl = "X99";
     if (core.Contains(uid)) {
       repl = isDef ? core.GetRS(uid).definition : core.GetRS(uid).alias;
@@ -286,7 +303,9 @@ bool CommonOp(Holder& h, const std::string& k, const json& a, json& out) {
   if (k == "emplace") {
     const auto def = ResolveText(h.Core(), a.value("def", std::string{}));
     out["args"] = json{ {"def", drv::PutBytes(def)} };
-    out["ret"] = h.Emplace(TypeOf(a.at("type").get<std::string>()), def);
+    const auto madeUid = h.Emplace(TypeOf(a.at("type").get<std::string>()), def);
+    Made().push_back(madeUid);
+    out["ret"] = madeUid;
   } else if (k == "insertcopy_rec") {
     const auto& core = h.Core();
     const auto rec = RecordOf(a.at("rec"), [&core](std::string t) { return ResolveText(core, std::move(t)); }, [&core](const json& u) { return UidOf(core, u); });
